@@ -185,7 +185,10 @@ fn check_one(ctx: &Ctx, r: &Res) {
     let mut s = l.clone();
     s.sort_by(|a, b| a.partial_cmp(b).unwrap());
     let want_median = if n % 2 == 1 { s[n / 2] } else { (s[n / 2 - 1] + s[n / 2]) / 2.0 };
-    if !(median == want_median || (median.is_nan() && want_median.is_nan())) {
+    // where the sum of the two middle values leaves the double range, the mean itself is still a double:
+    // the statement does not say which of the two an implementation returns, both are accepted
+    let overflow_alt = if n % 2 == 0 && want_median.is_infinite() && s[n / 2 - 1].is_finite() && s[n / 2].is_finite() { Some(s[n / 2 - 1] / 2.0 + s[n / 2] / 2.0) } else { None };
+    if !(median == want_median || (median.is_nan() && want_median.is_nan()) || overflow_alt == Some(median)) {
         viol("median", format!("{}", want_median), format!("{}", median));
     }
     // percentile: element of l, monotone in p, endpoints
@@ -260,6 +263,18 @@ pub fn run(ctx: &Ctx, replay: Option<&J>) -> i32 {
     // a few finite "ordinary" families for the rounding bounds
     for w in words(&[0.1, 0.2, 0.3, 1e16, -1e16, 3.0], 4).into_iter().filter(|w| !w.is_empty()) {
         lists.push(w);
+    }
+    // the ends of the double range, where halving, doubling or adding is not exact: odd multiples of the
+    // smallest subnormal, the smallest normal and its neighbours, the largest doubles
+    {
+        let tiny = [5e-324, 1.5e-323, 2.5e-323, -5e-324, -1.5e-323, 2.2250738585072014e-308, 2.225073858507201e-308, 0.0, 1.0];
+        for w in words(&tiny, ctx.tier.pick(3, 4)).into_iter().filter(|w| !w.is_empty()) {
+            lists.push(w);
+        }
+        let huge = [1.7976931348623157e308, 1.7976931348623155e308, 8.98846567431158e307, -1.7976931348623157e308, 1.0];
+        for w in words(&huge, ctx.tier.pick(3, 4)).into_iter().filter(|w| !w.is_empty()) {
+            lists.push(w);
+        }
     }
     // long lists of distinct values in every affine arrangement i -> (a*i + b) mod n (a coprime to n):
     // partial-selection or partial-sort implementations behave like a full sort only on short,
@@ -373,7 +388,7 @@ pub fn run(ctx: &Ctx, replay: Option<&J>) -> i32 {
     finish(
         ctx,
         "exploration",
-        "all number lists of length 1..4 (quick) / 1..5 (thorough) over a 9-value alphabet plus periodic extensions to 6..50, a rounding family and lists of 12..64 (thorough 8..128) distinct values in every affine arrangement i -> (a*i+b) mod n, and a size ladder (257, 1025; thorough 100..10001 around powers of two and ten) for six strides; per list one program evaluating sum/prod/avg/min/max/median in the three calling conventions and percentile at 13 p values; references computed by the harness on the same doubles; permutation invariance by grouping lists by multiset; each evaluation preceded, on the same thread, by a failing aggregate call in a session of its own; distinct = distinct lists",
+        "all number lists of length 1..4 (quick) / 1..5 (thorough) over a 9-value alphabet plus periodic extensions to 6..50, a rounding family, every list of length <= 3/4 over nine values at the subnormal end and five at the top of the double range, and lists of 12..64 (thorough 8..128) distinct values in every affine arrangement i -> (a*i+b) mod n, and a size ladder (257, 1025; thorough 100..10001 around powers of two and ten) for six strides; per list one program evaluating sum/prod/avg/min/max/median in the three calling conventions and percentile at 13 p values; references computed by the harness on the same doubles; permutation invariance by grouping lists by multiset; each evaluation preceded, on the same thread, by a failing aggregate call in a session of its own; distinct = distinct lists",
         true,
         None,
     )
